@@ -30,7 +30,16 @@ def once():
     env["PYTHONPATH"] = repo
     cmd = ["/venv/bin/python", "-m", "pytest", "-ra", "-q", "-p", "no:cacheprovider",
            "--timeout=900", "--continue-on-collection-errors", "--junitxml=" + junit]
-    p = subprocess.run(cmd, cwd=repo, env=env, stdout=subprocess.PIPE, stderr=subprocess.STDOUT, text=True)
+    try:
+        # the whole suite takes ~1 min; a rare hang of a thread-based test (seen under heavy machine load) is retried
+        p = subprocess.run(cmd, cwd=repo, env=env, stdout=subprocess.PIPE, stderr=subprocess.STDOUT, text=True, timeout=600)
+    except subprocess.TimeoutExpired:
+        print("baseline: pytest did not finish within 600 s (hung test); will retry")
+        try:
+            os.unlink(junit)
+        except OSError:
+            pass
+        return 1, ["<hang> test_infra_communication"]
     passed = set()
     try:
         for tc in ET.parse(junit).getroot().iter("testcase"):
